@@ -100,6 +100,10 @@ def classify_one(s, tx, raft):
     # disappearing: strings.Join(items, "\n") hashes [] and [""] alike
     if set(added + gone) == {""}:
         return "F27:raft-list-hash-empty-vs-empty-child"
+    # F25 shape: the listing prefix is non-empty and does not end in "/": hasModifiedListEntry looks for writes
+    # under prefix+"/" only, so the fast path bypasses the verification whatever was written beside it
+    if prefix != "" and not prefix.endswith("/"):
+        return "F25:raft-list-verify-bypass-nonslash-prefix"
     # F8 shape: the verification record could not hold a look-ahead entry (the snapshot had no more entries than
     # the limit), the snapshot listing was not empty (an empty record is verified without a limit), and every
     # difference between the observed listing and the listing at the commit point lies strictly AFTER the last
@@ -107,10 +111,6 @@ def classify_one(s, tx, raft):
     # (entries of the transaction's own writes may thereby be pushed out of a limited page)
     if snap and added and not (limit > 0 and len(snap) > limit) and all(x > snap[-1] for x in added + gone):
         return "F8:raft-list-phantom-append"
-    # F25 shape: the listing prefix is non-empty and does not end in "/": hasModifiedListEntry looks for writes
-    # under prefix+"/" only, so the fast path bypasses the verification whatever was written beside it
-    if prefix != "" and not prefix.endswith("/"):
-        return "F25:raft-list-verify-bypass-nonslash-prefix"
     # F24 shape: nothing disappeared; every entry that is new at the commit point is a FOLDER in which the
     # transaction itself deleted a key: its own delete hid the folder from its listing, a concurrent writer put
     # another key into the folder, and the storage-level listing (which shows the folder before and after) verifies
